@@ -166,6 +166,10 @@ RXN_OBSERVERS = {
     'rxn_implicify_hydrogens': lambda r, warm=False: _rxn_on_copy(r, 'implicify_hydrogens', warm),
     'rxn_explicify_hydrogens': lambda r, warm=False: _rxn_on_copy(r, 'explicify_hydrogens', warm),
     'rxn_members': lambda r: [[str(m) for m in r.reactants], [str(m) for m in r.reagents], [str(m) for m in r.products]],
+    'rxn_member_orders': lambda r: [list(m.smiles_atoms_order) for m in r.molecules()],
+    'rxn_member_atoms_order': lambda r: [sorted(m.atoms_order.items()) for m in r.molecules()],
+    'rxn_member_mapping': lambda r: [sorted((m.get_fast_mapping(m.copy()) or {}).items()) for m in r.molecules()],
+    'rxn_hash_eq': lambda r: [r == r.copy(), hash(r) == hash(r.copy())],
 }
 OBSERVERS.update(RXN_OBSERVERS)
 
